@@ -171,3 +171,139 @@ pub fn confirm(r: &mut Rng, n: usize, thorough: bool, out: &mut Out) {
     let js: Vec<String> = stats.iter().map(|(k, v)| format!("\"{}\":{}", k, v)).collect();
     println!("{{\"stats\":{{{}}}}}", js.join(","));
 }
+
+// ---------------------------------------------------------------- merkle
+
+use novasmt::{Database, InMemoryCas};
+
+fn hexs(b: &[u8]) -> String {
+    hex::encode(b)
+}
+
+/// sparse and dense Merkle trees of the real novasmt: root equalities and proof verdicts
+pub fn merkle(r: &mut Rng, n: usize, thorough: bool, out: &mut Out) {
+    let cases = if thorough { n * 4 } else { n };
+    for case in 0..cases {
+        let db = Database::new(InMemoryCas::default());
+        let mut classes: Vec<[u8; 32]> = vec![];
+        let mut class_of = |root: [u8; 32], classes: &mut Vec<[u8; 32]>| -> usize {
+            match classes.iter().position(|x| *x == root) {
+                Some(i) => i,
+                None => {
+                    classes.push(root);
+                    classes.len() - 1
+                }
+            }
+        };
+        // keys: random, plus keys sharing long prefixes with an existing key
+        let nk = 1 + r.below(10) as usize;
+        let mut keys: Vec<[u8; 32]> = vec![];
+        for _ in 0..nk {
+            let mut k = [0u8; 32];
+            if !keys.is_empty() && r.chance(1, 3) {
+                k = *r.pick(&keys);
+                let pos = *r.pick(&[31usize, 31, 16, 1, 0]);
+                k[pos] ^= 1 << r.below(8);
+            } else {
+                k.copy_from_slice(&r.bytes(32));
+            }
+            if !keys.contains(&k) {
+                keys.push(k);
+            }
+        }
+        let vals: Vec<Vec<u8>> = keys.iter().map(|_| { let n = 1 + r.below(6) as usize; r.bytes(n) }).collect();
+        // the same content built in two different orders, with an insert-then-delete detour
+        let mut order1: Vec<usize> = (0..keys.len()).collect();
+        let mut order2 = order1.clone();
+        r.shuffle(&mut order1);
+        r.shuffle(&mut order2);
+        let detour_key: [u8; 32] = { let mut k = [0u8; 32]; k.copy_from_slice(&r.bytes(32)); k };
+        let build = |name: &str, order: &[usize], detour: bool, out: &mut Out, classes: &mut Vec<[u8; 32]>, class_of: &mut dyn FnMut([u8; 32], &mut Vec<[u8; 32]>) -> usize| {
+            let mut t = db.get_tree([0u8; 32]).unwrap();
+            let mut entries = vec![];
+            for (j, i) in order.iter().enumerate() {
+                if detour && j == order.len() / 2 {
+                    t.insert(detour_key, b"x");
+                    entries.push(format!("{}={}", hexs(&detour_key), hexs(b"x")));
+                }
+                t.insert(keys[*i], &vals[*i]);
+                entries.push(format!("{}={}", hexs(&keys[*i]), hexs(&vals[*i])));
+            }
+            if detour {
+                t.insert(detour_key, b"");
+                entries.push(format!("{}=", hexs(&detour_key)));
+            }
+            let c = class_of(t.root_hash(), classes);
+            out.emit(&format!("mt {} {}", name, entries.join(";")), &format!("ok r{}", c));
+            t
+        };
+        let n1 = format!("t{}a", case);
+        let n2 = format!("t{}b", case);
+        let t1 = build(&n1, &order1, false, out, &mut classes, &mut class_of);
+        let _t2 = build(&n2, &order2, true, out, &mut classes, &mut class_of);
+        // a different content: one value changed / one key removed
+        if !keys.is_empty() {
+            let i = r.below(keys.len() as u64) as usize;
+            let mut t3 = t1.clone();
+            let newv: Vec<u8> = if r.chance(1, 2) { vec![] } else { let mut v = vals[i].clone(); v.push(9); v };
+            t3.insert(keys[i], &newv);
+            let c = class_of(t3.root_hash(), &mut classes);
+            out.emit(&format!("mt {} {}={}", n1, hexs(&keys[i]), hexs(&newv)), &format!("ok r{}", c));
+            // (the model continues from the tree named n1: re-establish it)
+            let mut t4 = t3.clone();
+            t4.insert(keys[i], &vals[i]);
+            let c = class_of(t4.root_hash(), &mut classes);
+            out.emit(&format!("mt {} {}={}", n1, hexs(&keys[i]), hexs(&vals[i])), &format!("ok r{}", c));
+        }
+        // proofs for every present key and some absent keys, honest and tampered
+        let root = t1.root_hash();
+        let mut probe_keys: Vec<[u8; 32]> = keys.clone();
+        for _ in 0..2 {
+            let mut k = [0u8; 32];
+            k.copy_from_slice(&r.bytes(32));
+            probe_keys.push(k);
+        }
+        if let Some(k0) = keys.get(0) {
+            let mut k = *k0;
+            k[31] ^= 1;
+            if !keys.contains(&k) {
+                probe_keys.push(k);
+            }
+        }
+        for k in &probe_keys {
+            let (val, proof) = t1.get_with_proof(*k);
+            let val = val.to_vec();
+            out.emit(&format!("mp {} {} honest", n1, hexs(k)), &format!("{} {}", proof.verify(root, *k, &val), crate::fmt::hxd(&val)));
+            let mut wrong = val.clone();
+            wrong.push(1);
+            out.emit(&format!("mp {} {} wrongval", n1, hexs(k)), &format!("{}", proof.verify(root, *k, &wrong)));
+            out.emit(&format!("mp {} {} emptyval", n1, hexs(k)), &format!("{}", proof.verify(root, *k, b"")));
+            let i = *r.pick(&[0usize, 1, 128, 254, 255]);
+            let mut p2 = proof.clone();
+            p2.0[i] = novasmt::hash_data(b"tamper");
+            out.emit(&format!("mp {} {} sibling:{}", n1, hexs(k), i), &format!("{}", p2.verify(root, *k, &val)));
+            let other = *r.pick(&probe_keys);
+            out.emit(&format!("mp {} {} otherkey:{}", n1, hexs(k), hexs(&other)), &format!("{}", proof.verify(root, other, &val)));
+        }
+        // dense tree (the TIP-908 transaction commitment): 0..9 blocks
+        let nb = r.below(10) as usize;
+        let blocks: Vec<Vec<u8>> = (0..nb).map(|_| { let n = 1 + r.below(5) as usize; r.bytes(n) }).collect();
+        let dt = novasmt::dense::DenseMerkleTree::new(&blocks);
+        let dn = format!("d{}", case);
+        let c = class_of(dt.root_hash(), &mut classes);
+        out.emit(&format!("dt {} {}", dn, if blocks.is_empty() { "-".to_string() } else { blocks.iter().map(|b| hexs(b)).collect::<Vec<_>>().join(",") }), &format!("ok r{}", c));
+        for i in 0..nb {
+            let proof = dt.proof(i);
+            let leaf = novasmt::hash_data(&blocks[i]);
+            out.emit(&format!("dp {} {} honest", dn, i), &format!("{}", novasmt::dense::verify_dense(&proof, dt.root_hash(), i, leaf)));
+            let mut wl = blocks[i].clone();
+            wl.push(7);
+            out.emit(&format!("dp {} {} wrongleaf", dn, i), &format!("{}", novasmt::dense::verify_dense(&proof, dt.root_hash(), i, novasmt::hash_data(&wl))));
+            let j = (i + 1 + r.below(3) as usize) % nb.max(1);
+            if j != i {
+                out.emit(&format!("dp {} {} wrongidx:{}", dn, i, j), &format!("{}", novasmt::dense::verify_dense(&proof, dt.root_hash(), j, leaf)));
+            }
+        }
+        out.emit("reset", "ok");
+    }
+}
